@@ -107,5 +107,7 @@ def run_concrete(harness, witness: Dict[str, Any]):
     try:
         harness(eng)
     except PathAbort as e:
+        if eng.failed:
+            return True, ("; ".join(eng.details) + " (then: %s)" % e)[:1500], eng
         return False, "aborted: %s" % e, eng
     return bool(eng.failed), "; ".join(eng.details)[:1500], eng
